@@ -102,3 +102,11 @@ impl TrackerClient {
         metainfo.tracker_url().clone() + "?info_hash=" + info_hash.as_str()
     }
 }
+
+#[cfg(feature = "verif")]
+impl TrackerClient {
+    /// The private `create_url` (verification harness only).
+    pub fn verif_create_url(metainfo: &Metainfo) -> String {
+        Self::create_url(metainfo)
+    }
+}
